@@ -115,3 +115,36 @@ def accepted(texts_: Iterable[str], *, auto_claim_comments: bool = True) -> Iter
     for t in texts_:
         if try_parse(t, M.File, auto_claim_comments) is not None:
             yield t
+
+
+# one document per directive class, in a minimal and in a full form (every optional part present, a meta item below):
+# gives the generic operation alphabet a subject of every class / every optional, required and repeated slot
+L_CLASSES = [
+    'option "a" "b"', 'option "a" "b" ; ic',
+    'include "x.bean"', 'include "x.bean" ; ic',
+    'plugin "p"', 'plugin "p" "cfg" ; ic',
+    'pushtag #t', 'poptag #t ; ic',
+    'pushmeta aa:', 'pushmeta aa: 1 ; ic', 'popmeta aa:', 'popmeta aa: ; ic',
+    '2000-01-01 balance Assets:Foo 1 USD', '2000-01-01 balance Assets:Foo 1 ~ 2 USD ; ic\n  aa: 1',
+    '2000-01-01 close Assets:Foo', '2000-01-01 close Assets:Foo ; ic\n  aa: 1',
+    '2000-01-01 commodity USD', '2000-01-01 commodity USD ; ic\n  aa: 1',
+    '2000-01-01 pad Assets:Foo Assets:Bar', '2000-01-01 pad Assets:Foo Assets:Bar ; ic\n  aa: 1',
+    '2000-01-01 event "a" "b"', '2000-01-01 event "a" "b" ; ic\n  aa: 1',
+    '2000-01-01 query "a" "b"', '2000-01-01 query "a" "b" ; ic\n  aa: 1',
+    '2000-01-01 price USD 1 EUR', '2000-01-01 price USD 1+1 EUR ; ic\n  aa: 1',
+    '2000-01-01 note Assets:Foo "n"', '2000-01-01 note Assets:Foo "n" #t ^l ; ic\n  aa: 1',
+    '2000-01-01 document Assets:Foo "f"', '2000-01-01 document Assets:Foo "f" #t ^l ; ic\n  aa: 1',
+    '2000-01-01 open Assets:Foo', '2000-01-01 open Assets:Foo USD, EUR "STRICT" ; ic\n  aa: 1',
+    '2000-01-01 custom "x"', '2000-01-01 custom "x" 1 TRUE Assets:Foo "s" 2 USD 2000-01-01 ; ic\n  aa: 1',
+    '2000-01-01 *', '2000-01-01 ! "p" "n" #t ^l ; ic\n  aa: 1\n  ! Assets:Foo 1 USD {2 # 3 EUR, 2000-01-01, "l", *} @ 4 GBP ; ic\n    bb: 2\n  Assets:Bar -1 USD {{5 EUR}} @@ 6 GBP\n  Assets:Baz',
+    '* ignored',
+    '; c\n2000-01-01 close Assets:Foo\n; d',
+]
+
+
+def class_corpus(modes=(True,), final=(True,)) -> list[str]:
+    out = []
+    for t in L_CLASSES:
+        for f in final:
+            out.append(t + ('\n' if f else ''))
+    return out
